@@ -134,7 +134,14 @@ def runFS (c : Json) (live : Bool) : E Json := do
   let files := fsSources entries
   let startStep := fldD c "start" (Json.mkObj [])
   let startRej := rejOf startStep (init.filterMap fun (k, spec) => if isBad spec then some k else none)
-  let o0 := fsStart startRej entries
+  -- live mode, "during": files replaced (atomically, in this order) while `Start` is inside the first processor call of
+  -- its initial load; nothing happens if `Start` makes no call
+  let chg ← (if live then arrD c "during" else []).mapM fun f => do
+    pure (srcName (← nat f "k"), ← fileState (← fld f "file"))
+  let held := if chg.isEmpty then none else fsFirstCall files 0
+  let (o0, files) := match held with
+    | some h => (fsStartDuring startRej entries h chg, fsReadDuring files h chg)
+    | none => (fsStart startRej entries, files)
   let mut st := o0.st
   let mut out : List Json := []
   -- the files `Start` gets to see: up to the first one it fails on
@@ -145,6 +152,16 @@ def runFS (c : Json) (live : Bool) : E Json := do
     des := desStep des ((fileSystem : Provider String _).obs ⟨[.create], n, f, startRej⟩)
     seen := o.st
     if o.err then break
+  -- SPEC after a successful `Start`: every source holds the latest valid content the load was shown, once
+  let specStart := renderDes des
+  -- ... where files were replaced meanwhile: the latest valid content of the files as they are on disk afterwards (a
+  -- provider that notices the changes made during its start may have that loaded instead, source by source)
+  let mut disk := desInit
+  for (n, f) in fsSources entries do
+    disk := desStep disk (fun s => if s == n then f.obs else .noinfo)
+  for (n, f) in chg do
+    disk := desStep disk (fun s => if s == n then f.obs else .noinfo)
+  let specDisk := renderDes disk
   let mut specs : List Json := []
   -- live mode: the watcher is only set up after the initial load succeeded
   let steps := if live && o0.err then [] else arrD c "steps"
@@ -175,8 +192,8 @@ def runFS (c : Json) (live : Bool) : E Json := do
       des := desStep des ((fileSystem : Provider String _).obs e)
       out := out ++ [snapshot probes st o.calls (some o.err)]
       specs := specs ++ [renderDes des]
-  return Json.mkObj [("res", Json.mkObj [("start", snapshot probes o0.st o0.calls (some o0.err)), ("steps", jarr out)]),
-    ("spec", jarr specs)]
+  return Json.mkObj ([("res", Json.mkObj [("start", snapshot probes o0.st o0.calls (some o0.err)), ("steps", jarr out)]),
+    ("spec", jarr specs)] ++ (if o0.err then [] else [("spec_start", specStart)] ++ (if held.isSome then [("spec_start_disk", specDisk)] else [])))
 
 /-! http_endpoint -/
 
